@@ -202,6 +202,7 @@ def assemble(m, ctx, L, key):
         signed.sort()
         cq = R.ref_canon_query_from_pairs(ctx, pairs)
         sig, creq, sts = ref_sign(m, key, ctx, 'GET', cpath, cq, headers, signed, L['body'], conc_bytes(TS), conc_bytes(SCOPE))
+        L['ref_pieces'] = (cq, list(headers), list(signed))
         headers.append(('authorization', auth_header(cred, signed, sig)))
     else:
         signed.sort()
@@ -216,13 +217,25 @@ def assemble(m, ctx, L, key):
             wire_q += conc_bytes(n) + [Int('u8', 0x3D)] + R.pct_encode(ctx, v)
         cq = R.ref_canon_query_from_pairs(ctx, pairs)
         sig, creq, sts = ref_sign(m, key, ctx, 'GET', cpath, cq, headers, signed, L['body'], conc_bytes(TS), conc_bytes(SCOPE))
+        L['ref_pieces'] = (cq, list(headers), list(signed))
         wire_q += conc_bytes('&X-Amz-Signature=') + sig
     rq = Req('GET', L['wire_path'], wire_q if wire_q else None, headers, L['body'], 'bytes')
     return rq, signed
 
 
 def has_literal_plus_in_path(L):
-    return zor(*[(e.v == 0x2B) if not e.sym else (e.v == 0x2B) for e in L['wire_path']])
+    """Condition under which a refusal is exactly the known finding F6: the wire path has a literal '+' AND the canonical request
+    the code hashed is the reference one with the F6-variant path (so nothing else is wrong with it).  Where the pieces of the
+    comparison are not available (callers that only know the wire path) only the first half can be stated."""
+    plus = zor(*[(e.v == 0x2B) if not e.sym else (e.v == 0x2B) for e in L['wire_path']])
+    if 'ref_pieces' not in L or 'code_calls' not in L:
+        return plus
+    sh = [c for c in L['code_calls'] if c.kind == 'sha256']
+    if len(sh) < 2:
+        return False
+    code_creq = sh[-1].msg
+    alts = [bytes_eq(code_creq, creq6) for creq6 in L.get('creq6', []) if len(creq6) == len(code_creq)]
+    return zand(plus, zor(*alts)) if alts else False
 
 
 KNOWN_PREDICATES = {'path_has_literal_plus': has_literal_plus_in_path}
@@ -236,7 +249,19 @@ def run_shape(prog, shape, tier, seed, res):
         key = sym_bytes(ctx, 'key', 32)
         rq, signed = assemble(m, ctx, L, key)
         prov = provider_ok(key)
+        before = len(oracle_of(m).calls)
         r, polls = run(m, rq, 'us-east-1', 'service', prov, instant(T0), None, options(L['s3'], False))
+        L['code_calls'] = oracle_of(m).calls[before:]
+        # yardstick for the known finding F6 only: the canonical path the F6 variant of the reference gives (literal '+' read as a space)
+        try:
+            L['cpath6'] = R.ref_canon_path(ctx, L['wire_path'], L['s3'], plus_is_space=True)
+        except R.RefError:
+            L['cpath6'] = []
+        sh_ = [c for c in L['code_calls'] if c.kind == 'sha256']
+        L['creq6'] = []
+        if len(sh_) >= 2:
+            cq_, hdrs_, signed_ = L['ref_pieces']
+            L['creq6'] = [ref_canonical_request(ctx, 'GET', cp6, cq_, hdrs_, signed_, hex_encode_elems(sh_[0].out)) for cp6 in L['cpath6']]
         return L, rq, signed, r, prov
 
     def on_path(pr):
@@ -327,6 +352,12 @@ def sign_concrete(inp, key=bytes(32)):
 
 def replay_finding(rp, f):
     inp = f.inp
+    if 'suite_vector' in inp:
+        from . import suite
+        nat = native_validate(rp, inp['request'], 'us-east-1', 'service', suite.SUITE_T, provider={'result': {'secret': AWS_SECRET}},
+                              opts={'s3': False, 'url_encode_form': True})
+        res = nat.get('result', {})
+        return ('ok' not in res), {'native': res.get('err', res), 'vector': inp['suite_vector']}
     if 'request' not in inp:
         return False, None
     j, creq, sts = sign_concrete(inp)
@@ -393,6 +424,26 @@ def conformance(prog, rp, seed, tier):
         if mine != n:
             mism.append({'uri': j['uri'][:200], 'mirse': mine, 'native': n})
     return len(cases), mism
+
+
+def extra_checks(tier, seed, rp):
+    """Translator validation + concrete completeness on the repository's own AWS test-suite vectors (specs/suite.py)."""
+    from . import suite
+    prog, _ = engine.load_program()
+    n, skipped, mism, fails = suite.run_suite(prog, rp)
+    out = {'aws_suite': {'vectors_run': n, 'skipped_unrepresentable_or_broken': skipped, 'mirse_native_mismatches': mism,
+                         'refused': [x['vector'] for x in fails],
+                         'compared': 'outcome (MIRSE vs native), SHA-256 input vs .creq, HMAC message vs .sts'}}
+    if mism:
+        out['status'] = 2
+        out['lines'] = ['INCONCLUSIVE property=C02 AWS-suite vectors: MIRSE and the native crate / the suite files disagree: %s' % json.dumps(mism[:2])[:800]]
+    elif fails:
+        x = fails[0]
+        f = Finding('AWS test-suite vector refused', {'suite_vector': x['vector'], 'request': x['request']}, {'outcome': x['outcome']})
+        path = write_replay_file(PROP, f)
+        out['status'] = 1
+        out['lines'] = ['VIOLATION property=C02 replay=%s' % path, '  suite vector %s refused: %s' % (x['vector'], x['outcome'])]
+    return out
 
 
 def describe(f):
